@@ -423,6 +423,7 @@ func c10(c *Ctx) {
 	op := rm.FindOp("GetStatus")
 	var prevU uhppote.IUHPPOTE
 	var prevAddr string
+	prevSelfPort := 0
 	for cycle := 0; cycle < cycles; cycle++ {
 		port := freePort("127.0.0.3")
 		if port == 0 {
@@ -438,13 +439,24 @@ func c10(c *Ctx) {
 			}
 		}
 		// the client's request timeout has nothing to do with listening: a listen-only application may well configure 0
-		u := mkClient(ClientCfg{Bind: "127.0.0.1:0", Listen: addr, Timeout: []time.Duration{time.Second, 0, 2500 * time.Millisecond, -time.Second}[(cycle/2)%4], Devices: devs})
+		// round 11: every other fresh client has a FIXED bind port, and the first sender sends from exactly that address and port (a
+		// controller may well sit there as far as the listener is concerned: the bind address is where requests leave from, it says
+		// nothing about whose events are welcome; seeded C10-X: datagrams from the bind address:port are dropped as 'our own')
+		bindAddr := "127.0.0.1:0"
+		selfPort := 0
+		if cycle%4 == 2 {
+			if selfPort = unlistenedPort("127.0.0.1"); selfPort != 0 {
+				bindAddr = fmt.Sprintf("127.0.0.1:%d", selfPort)
+			}
+		}
+		u := mkClient(ClientCfg{Bind: bindAddr, Listen: addr, Timeout: []time.Duration{time.Second, 0, 2500 * time.Millisecond, -time.Second}[(cycle/2)%4], Devices: devs})
 		if cycle%2 == 1 && prevU != nil {
 			// the same client listens again on the same address: a second session is as good as the first
 			u, addr = prevU, prevAddr
+			selfPort = prevSelfPort
 			c.Res.Count("cycles:same-client-listening-again", 1)
 		}
-		prevU, prevAddr = u, addr
+		prevU, prevAddr, prevSelfPort = u, addr, selfPort
 		lst := &c10Listener{addr: addr, errFalse: cycle%2 == 1, scribble: cycle%3 == 0}
 		if cycle%3 == 1 {
 			lst.slowEvery = 5 + r.Pick(10)
@@ -548,7 +560,19 @@ func c10(c *Ctx) {
 			wg.Add(1)
 			go func(s int) {
 				defer wg.Done()
-				conn, err := net.Dial("udp4", addr)
+				var conn net.Conn
+				var err error
+				if s == 0 && selfPort != 0 {
+					if ra, e := net.ResolveUDPAddr("udp4", addr); e == nil {
+						if uc, e2 := net.DialUDP("udp4", &net.UDPAddr{IP: net.IPv4(127, 0, 0, 1), Port: selfPort}, ra); e2 == nil {
+							conn = uc
+							c.Res.Count("cycles:sender-at-the-clients-bind-address", 1)
+						}
+					}
+				}
+				if conn == nil {
+					conn, err = net.Dial("udp4", addr)
+				}
 				if err != nil {
 					return
 				}
